@@ -87,6 +87,7 @@ structure Obj where
   super : Option Nat := none
   contains : List Nat := []
   living : Option String := none  -- living_name
+  sent : List (String × Nat) := [] -- sentences (verb, defining object) this object can use, newest first
   deriving Repr
 
 /-- the structures of the driver -/
@@ -195,12 +196,56 @@ def finishDestruct (c : Core) (ob : Nat) : Core :=
   let c2 := removeHash c1 ob
   let c3 : Core := { c2 with ol := c2.ol.erase ob }
   let c4 := removeLiving c3 ob
-  let c5 := setObj c4 ob { c4.objs ob with ec := false, super := none, contains := [], destructed := true }
+  let c5 := setObj c4 ob { c4.objs ob with ec := false, super := none, contains := [], destructed := true, sent := [] }
   { c5 with dl := ob :: c5.dl }
 
 /-- remove_destructed_objects: destruct2 on every entry (worst case: no other reference, structure released) -/
 def gc (c : Core) : Core :=
   { c with objs := fun i => if i ∈ c.dl then { c.objs i with freed := true } else c.objs i, dl := [] }
+
+/-! ## sentences (add_action / remove_sent) -/
+
+/-- rewrite the sentence lists only (`f` sees the object once: no re-evaluation of the state function) -/
+def mapSent (c : Core) (f : Nat → Obj → List (String × Nat)) : Core :=
+  { c with objs := fun i => let o := c.objs i; { o with sent := f i o } }
+
+/-- remove_sent(ob, user) on the list of `user` -/
+def rmSent (ob : Nat) (l : List (String × Nat)) : List (String × Nat) := l.filter (fun t => t.2 ≠ ob)
+
+/-- move_object, before the unlinking: `item` loses the sentences of its old environment and of its old siblings (if it
+    is command-enabled); the old environment and the command-enabled old siblings lose the sentences of `item` -/
+def unsentMove (c : Core) (item : Nat) : Core :=
+  match (c.objs item).super with
+  | none => c
+  | some s =>
+    let sibs := (c.objs s).contains
+    mapSent c fun u o =>
+      if u = item then
+        (if o.ec then o.sent.filter (fun t => t.2 ≠ s ∧ ¬ (t.2 ∈ sibs ∧ t.2 ≠ item)) else o.sent)
+      else if (u = s ∨ u ∈ sibs) ∧ o.ec then rmSent item o.sent
+      else o.sent
+
+/-- destruct_object, unlink block: the environment and everything in it (command-enabled) lose the sentences of `ob` -/
+def unsentDestruct (c : Core) (ob : Nat) : Core :=
+  match (c.objs ob).super with
+  | none => c
+  | some s =>
+    let sibs := (c.objs s).contains
+    mapSent c fun u o => if (u = s ∨ u ∈ sibs) ∧ o.ec then rmSent ob o.sent else o.sent
+
+/-- add_action: new sentence at the head of the command giver's list -/
+def addSent (c : Core) (g : Nat) (verb : String) (ob : Nat) : Core :=
+  mapSent c fun u o => if u = g then (verb, ob) :: o.sent else o.sent
+
+/-- the test of add_action(): the defining object must be near the command giver (pointer comparisons, NULL = NULL) -/
+def nearCg (c : Core) (ob g : Nat) : Bool :=
+  decide (ob = g) || decide ((c.objs ob).super = some g) || decide ((c.objs ob).super = (c.objs g).super) ||
+    decide ((c.objs g).super = some ob)
+
+/-- spec-level adjacency used by the ghost flag: one is the environment of the other, or they share an environment -/
+def adjacent (c : Core) (x y : Nat) : Bool :=
+  decide ((c.objs x).super = some y) || decide ((c.objs y).super = some x) ||
+    (decide ((c.objs x).super = (c.objs y).super) && (c.objs x).super.isSome)
 
 /-- `ob->next_inv` -/
 def nextInv (c : Core) (i : Nat) : Option Nat :=
@@ -227,11 +272,11 @@ def superWalk (c : Core) (item : Nat) : Nat → Option Nat → Walk
 /-! ## operations, hooks, tasks -/
 
 inductive Hook where
-  | create | init | mod
+  | create | init | mod | act
   deriving DecidableEq, Repr
 
 def Hook.str : Hook → String
-  | .create => "create" | .init => "init" | .mod => "mod"
+  | .create => "create" | .init => "init" | .mod => "mod" | .act => "act"
 
 /-- what a scripted LPC object can do (harness/mudlib/c08/obj.c: do_op) -/
 inductive Op where
@@ -244,7 +289,9 @@ inductive Op where
   | ln (a : Nat) (s : String) -- a: set_living_name(s)
   | fo (nm : Name)           -- find_object(name)
   | fl (s : String)          -- find_living(s)
-  | kp (a : Nat)             -- keep a reference to a in a global variable of the executing object
+  | aa (a : Nat) (verb : String)  -- a: add_action("act", verb)  (for the current command giver)
+  | cmd (a : Nat) (verb : String) -- a: command(verb)
+  | kp (a : Nat)             -- keep a reference to a in a global variable / array / mapping of the executing object
   | rd                       -- read that variable back
   | err                      -- error("boom")
   | mvarg                    -- inside move_or_destruct(dest): if (dest) move_object(dest)
@@ -263,6 +310,8 @@ structure World where
   restrict : Option Nat := none           -- restrict_destruct
   fired : List (Nat × Hook) := []         -- hook invocations so far
   keep : List (Nat × Nat) := []           -- (holder, target): LPC variable `keep` of holder
+  cg : Option Nat := none                 -- command_giver
+  initBad : Bool := false                 -- ghost: an init() was called between objects that are not adjacent
   out : List String := []                 -- canonical trace, newest first
 
 def emit (w : World) (s : String) : World := { w with out := s :: w.out }
@@ -309,7 +358,8 @@ inductive Task where
   | load (b : Base)                                        -- find_or_load_object
   | clone (b : Base)                                       -- clone_object
   | move (item dest : Nat)                                 -- f_move_object + move_object
-  | fan (item dest : Nat) (cur : Option Nat)               -- the `for (ob = dest->contains; ob; ob = next_ob)` loop
+  | fan (item dest : Nat) (cur : Option Nat) (save : Option Nat)  -- the `for (ob = dest->contains; ob; ob = next_ob)` loop; save_cmd
+  | command (a : Nat) (verb : String)                      -- process_command(verb, a) + user_parser
   | destruct (ob : Nat)                                    -- destruct_object
   | dloop (ob : Nat) (sup0 : Option Nat) (saveR : Option Nat)  -- its `while (ob->contains)` loop
 
@@ -358,12 +408,17 @@ def exec (sc : Scripts) : Nat → Task → World → R
               { w := emit w s!"r de {oid a} ok" }
           | none => { w := emit w s!"r de {oid a} !gone" }
         | .ec a =>
+          -- enable_commands(1): flag + command_giver = current_object
           match readRef w.c a with
-          | some a => { w := emit { w with c := setObj w.c a { w.c.objs a with ec := true } } s!"r ec {oid a} ok" }
+          | some a => { w := emit { w with c := setObj w.c a { w.c.objs a with ec := true }, cg := some a } s!"r ec {oid a} ok" }
           | none => { w := emit w s!"r ec {oid a} !gone" }
         | .dc a =>
+          -- enable_commands(0): nothing when not enabled, else flag off + command_giver = 0
           match readRef w.c a with
-          | some a => { w := emit { w with c := setObj w.c a { w.c.objs a with ec := false } } s!"r dc {oid a} ok" }
+          | some a =>
+            if (w.c.objs a).ec then
+              { w := emit { w with c := setObj w.c a { w.c.objs a with ec := false }, cg := none } s!"r dc {oid a} ok" }
+            else { w := emit w s!"r dc {oid a} ok" }
           | none => { w := emit w s!"r dc {oid a} !gone" }
         | .ln a s =>
           match readRef w.c a with
@@ -379,13 +434,33 @@ def exec (sc : Scripts) : Nat → Task → World → R
           else
             let r := findLivingC w.c s
             { w := emit { w with c := r.1 } s!"r fl {s} {ooid (r.2.bind (readRef r.1))} {if r.2.isSome then 1 else 0}" }
+        | .aa a verb =>
+          -- add_action("act", verb) executed by `a`
+          match readRef w.c a with
+          | none => { w := emit w s!"r aa {oid a} {verb} !gone" }
+          | some a =>
+            match w.cg with
+            | none => { w := emit w s!"r aa {oid a} {verb} ok" }
+            | some g =>
+              if ¬ (g < w.c.n) ∨ (w.c.objs g).freed then crashR w "add_action: command_giver"
+              else if (w.c.objs g).destructed ∨ ¬ nearCg w.c a g then { w := emit w s!"r aa {oid a} {verb} ok" }
+              else
+                -- `ob->super` / `command_giver->super` are only compared, not dereferenced
+                { w := emit { w with c := addSent w.c g verb a } s!"r aa {oid a} {verb} ok" }
+        | .cmd a verb =>
+          match readRef w.c a with
+          | none => { w := emit w s!"r cmd {oid a} {verb} !gone" }
+          | some a =>
+            (exec sc f (.command a verb) w).andThen fun w v =>
+              { w := emit w s!"r cmd {oid a} {verb} {if v.isSome then 1 else 0}" }
         | .kp a =>
           match readRef w.c a with
           | some a => { w := emit { w with keep := (self, a) :: w.keep } s!"r kp {oid self} {oid a} ok" }
           | none => { w := emit w s!"r kp {oid self} {oid a} !gone" }
         | .rd =>
+          -- the same reference read back from a global variable (F_GLOBAL), an array element and a mapping value (F_INDEX)
           let v := (w.keep.find? (fun p => p.1 = self)).bind (fun p => readRef w.c p.2)
-          { w := emit w s!"r rd {oid self} {ooid v}" }
+          { w := emit w s!"r rd {oid self} {ooid v} {ooid v} {ooid v}" }
         | .err => raise w errBoom
         | .mvarg =>
           match arg.bind (readRef w.c) with
@@ -399,11 +474,15 @@ def exec (sc : Scripts) : Nat → Task → World → R
         if (w.c.objs self).destructed then { w := w } else exec sc f (.ops self arg rest) w
     | .hook x k arg =>
       -- apply_low: a destructed object is never entered
-      if (w.c.objs x).freed then crashR w "apply"
+      if ¬ (x < w.c.n) ∨ (w.c.objs x).freed then crashR w "apply"
       else if (w.c.objs x).destructed then { w := w }
       else
         let n := firedCount w x k
         let w := { w with fired := (x, k) :: w.fired }
+        -- ghost: init() is only ever exchanged between adjacent objects
+        let w := match k, arg with
+          | .init, some y => { w with initBad := w.initBad || !adjacent w.c x y }
+          | _, _ => w
         let w := match k with
           | .create => emit w s!"new {oid x} {(w.c.objs x).name.str}"
           | _ => emit w s!"hb {oid x} {k.str} {ooid arg}"
@@ -423,26 +502,30 @@ def exec (sc : Scripts) : Nat → Task → World → R
           | .nofile => { w := w, val := none }
           | .badfile => raise w errBadFile
           | _ =>
+            let saveCg := w.cg
             let a := alloc w.c nm false
             let w := { w with c := a.1 }
             (exec sc f (.hook a.2 .create none) w).andThen fun w _ =>
+              let w := { w with cg := saveCg }
               -- find_or_load_object: `if (!ob || (ob->flags & O_DESTRUCTED)) return 0`
               if (w.c.objs a.2).destructed then { w := w, val := none } else { w := w, val := some a.2 }
     | .clone b =>
+      let saveCg := w.cg
       (exec sc f (.load b) w).andThen fun w v =>
         match v with
         | none => { w := w, val := none }
         | some ob =>
-          if (w.c.objs ob).freed then crashR w "clone_object"
+          if ¬ (ob < w.c.n) ∨ (w.c.objs ob).freed then crashR w "clone_object"
           else if (w.c.objs ob).clone then raise w "*Cannot clone from a clone!"
           else
             let nm : Name := { base := (w.c.objs ob).name.base, num := some w.c.ctr }
             let a := alloc { w.c with ctr := w.c.ctr + 1 } nm true
             let w := { w with c := a.1 }
             (exec sc f (.hook a.2 .create none) w).andThen fun w _ =>
+              let w := { w with cg := saveCg }
               if (w.c.objs a.2).destructed then { w := w, val := none } else { w := w, val := some a.2 }
     | .move item dest =>
-      if ¬ (item < w.c.n ∧ dest < w.c.n) then crashR w "move_object: not an object"
+      if ¬ (item < w.c.n ∧ dest < w.c.n) ∨ (w.c.objs item).freed then crashR w "move_object: not an object"
       else if (w.c.objs item).destructed then raise w errMoveDested
       else
         match superWalk w.c item (w.c.n + 1) (some dest) with
@@ -457,36 +540,64 @@ def exec (sc : Scripts) : Nat → Task → World → R
               | some s => s :: (w.c.objs s).contains
             if anyFreed w.c oldInv then crashR w "move_object unlink"
             else
-              let w0 := { w with c := relink w.c item dest }
+              let saveCg := w.cg
+              let w0 := { w with c := relink (unsentMove w.c item) item dest }
               let r : R :=
-                if (w0.c.objs item).ec then exec sc f (.hook dest .init (some item)) w0 else { w := w0 }
+                if (w0.c.objs item).ec then exec sc f (.hook dest .init (some item)) { w0 with cg := some item }
+                else { w := w0 }
               r.andThen fun w1 _ =>
-                if (w0.c.objs item).ec ∧ ((w1.c.objs dest).destructed ∨ (w1.c.objs item).super ≠ some dest) then { w := w1 }
-                else exec sc f (.fan item dest (w1.c.objs dest).contains.head?) w1
-    | .fan item dest cur =>
+                if (w0.c.objs item).ec ∧ ((w1.c.objs dest).destructed ∨ (w1.c.objs item).super ≠ some dest) then
+                  { w := { w1 with cg := saveCg } }
+                else exec sc f (.fan item dest (w1.c.objs dest).contains.head? saveCg) w1
+    | .fan item dest cur saveCg =>
       match cur with
       | none =>
         if (w.c.objs dest).destructed then raise w errDestGone
-        else if (w.c.objs dest).ec then exec sc f (.hook item .init (some dest)) w
-        else { w := w }
+        else
+          let r : R :=
+            if (w.c.objs dest).ec then exec sc f (.hook item .init (some dest)) { w with cg := some dest } else { w := w }
+          r.andThen fun w _ => { w := { w with cg := saveCg } }
       | some ob =>
-        if (w.c.objs ob).freed then crashR w "move_object fan-out"
+        if ¬ (ob < w.c.n) ∨ (w.c.objs ob).freed then crashR w "move_object fan-out"
         else
           let next := nextInv w.c ob
-          if ob = item then exec sc f (.fan item dest next) w
+          if ob = item then exec sc f (.fan item dest next saveCg) w
           else if (w.c.objs ob).destructed then raise w errInitDested
+          -- fix: C08-F2 - an init() moved the saved next object out of dest: stop the fan-out
+          else if (w.c.objs ob).super ≠ some dest then exec sc f (.fan item dest none saveCg) w
           else
-            let r1 : R := if (w.c.objs ob).ec then exec sc f (.hook item .init (some ob)) w else { w := w }
+            let r1 : R :=
+              if (w.c.objs ob).ec then exec sc f (.hook item .init (some ob)) { w with cg := some ob } else { w := w }
             r1.andThen fun w1 _ =>
-              if (w.c.objs ob).ec ∧ (w1.c.objs item).super ≠ some dest then { w := w1 }
+              if (w.c.objs ob).ec ∧ (w1.c.objs item).super ≠ some dest then { w := { w1 with cg := saveCg } }
               else if (w1.c.objs item).destructed then raise w1 errItemDested
+              -- fix: C08-F2 - ob left during the call above: no init() between rooms
+              else if (w1.c.objs ob).super ≠ some dest then exec sc f (.fan item dest next saveCg) w1
               else
-                let r2 : R := if (w1.c.objs item).ec then exec sc f (.hook ob .init (some item)) w1 else { w := w1 }
+                let r2 : R :=
+                  if (w1.c.objs item).ec then exec sc f (.hook ob .init (some item)) { w1 with cg := some item }
+                  else { w := w1 }
                 r2.andThen fun w2 _ =>
-                  if (w1.c.objs item).ec ∧ (w2.c.objs item).super ≠ some dest then { w := w2 }
-                  else exec sc f (.fan item dest next) w2
+                  if (w1.c.objs item).ec ∧ (w2.c.objs item).super ≠ some dest then { w := { w2 with cg := saveCg } }
+                  else exec sc f (.fan item dest next saveCg) w2
+    | .command a verb =>
+      -- command_for_object / process_command / user_parser (the action functions of the harness return 1)
+      if ¬ (a < w.c.n) ∨ (w.c.objs a).freed then crashR w "command: not an object"
+      else if (w.c.objs a).destructed then { w := w, val := none }
+      else
+        let saveCg := w.cg
+        if ¬ (w.c.objs a).ec then { w := w, val := none }
+        else
+          -- sentences hold a reference to their object: the structure is never released while listed
+          -- (a sentence only ever holds an allocated object: add_action stores current_object)
+          match (w.c.objs a).sent.find? (fun t => decide (t.2 < w.c.n) && !(w.c.objs t.2).destructed && t.1 == verb) with
+          | none => { w := w, val := none }
+          | some t =>
+            (exec sc f (.hook t.2 .act (some a)) { w with cg := some a }).andThen fun w _ =>
+              { w := { w with cg := saveCg }, val := some a }
     | .destruct ob =>
       if restricted w ob then raise w errRestrict
+      else if ¬ (ob < w.c.n) ∨ (w.c.objs ob).freed then crashR w "destruct_object: not an object"
       else if (w.c.objs ob).destructed then { w := w }
       else exec sc f (.dloop ob (w.c.objs ob).super w.restrict) w
     | .dloop ob sup0 saveR =>
@@ -502,14 +613,14 @@ def exec (sc : Scripts) : Nat → Task → World → R
         else if anyFreed w.c inv ∨ anyFreed w.c (w.c.ot (hashN nm)) ∨ anyFreed w.c w.c.ol
             ∨ anyFreed w.c (match (w.c.objs ob).living with | none => [] | some s => w.c.lv (lhash s)) then
           crashR w "destruct_object unlink"
-        else { w := { w with c := finishDestruct w.c ob } }
+        else { w := { w with c := finishDestruct (unsentDestruct w.c ob) ob } }
       | otmp :: _ =>
-        if (w.c.objs otmp).freed then crashR w "destruct_object contains"
+        if ¬ (otmp < w.c.n) ∨ (w.c.objs otmp).freed then crashR w "destruct_object contains"
         else
           let arg := match sup0 with
             | none => none
             | some s => if (w.c.objs s).destructed then none else some s
-          if (match sup0 with | none => false | some s => (w.c.objs s).freed) then crashR w "destruct_object super"
+          if (match sup0 with | none => false | some s => decide (¬ (s < w.c.n)) || (w.c.objs s).freed) then crashR w "destruct_object super"
           else
             let w := { w with restrict := some otmp }
             (exec sc f (.hook otmp .mod arg) w).andThen fun w _ =>
@@ -519,7 +630,7 @@ def exec (sc : Scripts) : Nat → Task → World → R
                 let r : R :=
                   if (w.c.objs ob).contains.head? = some otmp then exec sc f (.destruct otmp) w else { w := w }
                 r.andThen fun w _ =>
-                  -- fix: C08 - re-check after the nested destruct_object
+                  -- fix: C08-F1 - re-check after the nested destruct_object
                   if (w.c.objs ob).destructed then { w := w }
                   else exec sc f (.dloop ob sup0 saveR) w
 
@@ -540,6 +651,9 @@ def lnStr : Option String → String
   | none => "0"
   | some s => s
 
+def sentStr (l : List (String × Nat)) : String :=
+  if l.isEmpty then "-" else ";".intercalate (l.map fun t => s!"{t.1}:{oid t.2}")
+
 def joinIds (l : List Nat) : String := ",".intercalate (l.map oid)
 
 /-- canonical dump of the structures (harness: walker over the real ones) -/
@@ -547,9 +661,9 @@ def snapLines (c : Core) : List String :=
   let objLines := (List.range c.n).map fun i =>
     let o := c.objs i
     if o.destructed then
-      s!"S {oid i} D{if o.super.isSome then " super" else ""}{if o.contains.isEmpty then "" else " contains"}{if o.ec then " ec" else ""}{if o.living.isSome then " living" else ""}"
+      s!"S {oid i} D{if o.super.isSome then " super" else ""}{if o.contains.isEmpty then "" else " contains"}{if o.ec then " ec" else ""}{if o.living.isSome then " living" else ""}{if o.sent.isEmpty then "" else " sent"}"
     else
-      s!"S {oid i} {o.name.str} env={ooid o.super} inv={joinIds o.contains} ec={if o.ec then 1 else 0} cl={if o.clone then 1 else 0} ln={lnStr o.living}"
+      s!"S {oid i} {o.name.str} env={ooid o.super} inv={joinIds o.contains} ec={if o.ec then 1 else 0} cl={if o.clone then 1 else 0} ln={lnStr o.living} sent={sentStr o.sent}"
   let otLines := ((List.range otSize).filter (fun h => !(c.ot h).isEmpty)).map fun h => s!"S ot {h} {joinIds (c.ot h)}"
   let lvLines := ((List.range lvSize).filter (fun h => !(c.lv h).isEmpty)).map fun h => s!"S lv {h} {joinIds (c.lv h)}"
   objLines ++ otLines ++ [s!"S ol {joinIds c.ol}", s!"S dl {joinIds c.dl}"] ++ lvLines
@@ -597,14 +711,18 @@ inductive Cmd where
 
 def stepCmd (sc : Scripts) (w : World) : Cmd → World
   | .top op =>
+    -- the harness applies master->top(op); (the reload of a destructed master is not modelled: such a history is cut)
+    if ¬ (1 < w.c.n ∧ (w.c.objs 1).destructed = false) then emit w "r top !nomaster" else
     let r := exec sc topFuel (.ops 1 none [op]) w
     match r.out with
     | .ok => r.w
-    | .err => emit r.w "r top !err"
+    -- restore_context() puts command_giver back to its value at save_context()
+    | .err => emit { r.w with cg := w.cg } "r top !err"
     | _ => r.w
   | .snap => { w with out := (snapLines w.c).reverse ++ w.out }
   | .probe => probe w
-  | .gc => { w with c := gc w.c }
+  -- the harness clears command_giver as backend()'s clear_state does before remove_destructed_objects()
+  | .gc => { w with c := gc w.c, cg := none }
 
 def runCmds (sc : Scripts) (w : World) (cs : List Cmd) : World := cs.foldl (stepCmd sc) w
 
